@@ -3,7 +3,7 @@
    list.  T stands for the 15 mode tables; they are regenerated from code.go on every run and
    table_ok T is re-proved for them by computation (C02/TableProofs.v, with the instantiated
    theorems). *)
-From C02 Require Import Model Spec Proofs OneForm.
+From C02 Require Import Model Spec Proofs OneForm ReadFrom.
 
 (* (1) A text denotes one result, whatever the delivery: for EVERY list of stream blocks (any number,
    any sizes, empty blocks included), in all-objects and in one-form mode, the stream read equals the
@@ -63,3 +63,65 @@ Theorem C02_one_form_then_rest : forall T esc text s' p,
   s_read T esc text = prepend (rev (code (c_p (s_core s')))) p (s_read T esc (skipn p text)).
 Proof. exact one_then_rest. Qed.
 Print Assumptions C02_one_form_then_rest.
+
+(* (8) cl:read-from-string.  rfs_s is the rule the property demands of it: the one-form read of
+   text[start, end), and with the object the position where the form ends, moved over the white space that
+   follows it unless :preserve-whitespace is given.  Reading ANY text form by form, each call starting at
+   the position the previous call reported - (read-from-string text nil eof :start pos) - yields exactly
+   the read of the whole text: the same objects in the same order, the same error if there is one, the
+   end of the text as the last position.  With and without :preserve-whitespace.  (table_ok4: the
+   bytes the function steps over are skipped by the reader in value mode; re-proved on the regenerated
+   tables on every run.) *)
+Theorem C02_read_from_string_form_by_form : forall T esc,
+  table_ok T = true -> table_ok2 T = true -> table_ok3 T = true -> table_ok4 T = true ->
+  forall pw text, forms_by_start_s T esc pw text = Some (s_read T esc text).
+Proof. exact by_start_s. Qed.
+Print Assumptions C02_read_from_string_form_by_form.
+
+(* (9) the position rule as a predicate, and that it fixes the position: from the end p of the form only
+   white space is stepped over, and the reported position is the end of the text or a byte that is not white
+   space *)
+Theorem C02_read_from_string_position : forall buf p, p <= length buf ->
+  ws_pos_ok buf p (skip_ws (skipn p buf) p) /\ forall q, ws_pos_ok buf p q -> q = skip_ws (skipn p buf) p.
+Proof. exact position_rule. Qed.
+Print Assumptions C02_read_from_string_position.
+
+(* (10) rfs_m is the function as pkg/cl/read-from-string.go computes it, on ReadOne (m_read_whole).  On
+   the guard g_rfs - the plain call (read-from-string s), or a call with keys that starts at 0 or preserves
+   white space, and starts inside the string - it IS the rule. *)
+Theorem C02_read_from_string_meets_rule : forall T esc, table_ok T = true ->
+  forall keys text start e pw, g_rfs keys text start pw = true ->
+  rfs_m T esc keys text start e pw = rfs_s T esc text (if keys then start else 0) (if keys then e else None) (keys && pw).
+Proof. exact rfs_m_meets_s. Qed.
+Print Assumptions C02_read_from_string_meets_rule.
+
+(* (11) hence for the function as written: called on what is left of the text, (read-from-string rest) with
+   rest the text from the reported position on, and called with :start and :preserve-whitespace t, it reads
+   every text form by form to exactly the read of the whole text.  (With :start > 0 and without
+   :preserve-whitespace it does not: known finding C02-rfs-start-skip, refuted on the current tables in
+   TableProofs.v; a start equal to the length is refused: C02-rfs-start-at-end, rfs_end_bound_refuted.) *)
+Theorem C02_read_from_string_as_written : forall T esc,
+  table_ok T = true -> table_ok2 T = true -> table_ok3 T = true -> table_ok4 T = true ->
+  forall text, forms_by_suffix_m T esc text = Some (s_read T esc text) /\
+               forms_by_start_m T esc true text = Some (s_read T esc text).
+Proof. exact as_written. Qed.
+Print Assumptions C02_read_from_string_as_written.
+
+(* (12) a one-form read yields one object: the step that completes the first object completes no second one *)
+Theorem C02_one_form_is_one_object : forall T esc s b, table_ok T = true -> table_ok2 T = true ->
+  c_err (s_core s) = None -> code (c_p (s_core s)) = [] -> c_err (s_core (s_step T esc s b)) = None ->
+  length (code (c_p (s_core (s_step T esc s b)))) <= 1.
+Proof. exact step_single. Qed.
+Print Assumptions C02_one_form_is_one_object.
+
+(* (13) where the function as written leaves the rule, whatever the tables: a start equal to the length of
+   the string is refused although nothing more than the eof value is due there *)
+Theorem C02_read_from_string_start_at_end_refuted : forall T esc,
+  rfs_m T esc true [97]%N 1 None false = FBounds /\ rfs_s T esc [97]%N 1 None false = FEof 1.
+Proof. exact rfs_end_bound_refuted. Qed.
+Print Assumptions C02_read_from_string_start_at_end_refuted.
+
+(* (14) inside the guard (ASCII text) the reported byte position is the character position *)
+Theorem C02_read_from_string_ascii_positions : forall text q, ascii text = true -> q <= length text -> char_pos text q = q.
+Proof. exact char_pos_ascii. Qed.
+Print Assumptions C02_read_from_string_ascii_positions.
